@@ -69,7 +69,7 @@ func (p *c16) Rule() string {
 	return "real TO2 (EC keys; simstore or sqlite) with generated module scripts: 0-3 owner modules (each present on the device or not), per module 1-3 rounds of owner->device messages of 1..6000 bytes (chunked by the module to the device MTU, using blockPeer when a round spans several protocol messages) and device->owner replies of 1..6000 bytes written in several pieces with yields and forced message breaks; 0-200 additional device module names of varying length; device and owner MTUs from 128 to 65535 (biased to small values); the device's devmod writer, module handler and send/receive loop are interleaved by the seeded scheduler through the verif hooks; oracle: stream model per (module, message) in both directions, devmod descriptors and module list in the owner's session state, strict module sequencing, activation before Receive and inactive answers for unknown modules, per-message MTU compliance measured on the tunnel plaintext, Done right after IsDone; non-trivial = at least one module exchanged data and >=2 tasks were runnable at some step; distinct = distinct (script, schedule, outcome)"
 }
 func (p *c16) DeadlockIsViolation() bool { return true }
-func (p *c16) Exhaustive(string) bool { return false }
+func (p *c16) Exhaustive(string) bool    { return false }
 func (p *c16) Components() map[string][]string {
 	return map[string][]string{
 		"real": {"fdo.TO2 device role incl. exchangeServiceInfo and module dispatch", "TO2Server.ownerServiceInfo / produceOwnerServiceInfo / devmod owner module", "serviceinfo chunking pipes", "Devmod.Write", "http.Handler/Transport, tunnel encryption", "sqlite.DB (sql plans)"},
